@@ -67,11 +67,14 @@ pub fn run_script(sim: &Sim, idx: u64) {
         let n = if sim.chance(1, 6) { sim.range(9, 14) } else { sim.range(1, 8) };
         (sim.chance(1, 2), (0..n).map(|_| sim.pick(&[L::F, L::S, L::K])).collect())
     };
-    let kinds = [std::io::ErrorKind::ConnectionRefused, std::io::ErrorKind::TimedOut, std::io::ErrorKind::Other, std::io::ErrorKind::ConnectionReset];
+    use std::io::ErrorKind as K;
+    let kinds = [K::ConnectionRefused, K::TimedOut, K::Other, K::ConnectionReset, K::NotFound, K::PermissionDenied, K::ConnectionAborted, K::BrokenPipe, K::UnexpectedEof, K::AddrNotAvailable, K::InvalidInput, K::Interrupted];
+    // a connect timeout far above any simulated connect delay must not change anything
+    let connect_timeout = if sim.chance(1, 3) { Some(Duration::from_secs(sim.pick(&[5u64, 60]))) } else { None };
     let netcfg = if sim.chance(1, 2) { NetCfg::ideal() } else { NetCfg { stall_pct: 0, ..NetCfg::draw(sim) } };
     let double = sim.chance(1, 4);
     sim.nontrivial();
-    sim.sample(|| format!("{} channel, script {:?}, back-to-back calls={double}", if lazy { "lazy" } else { "eager" }, script));
+    sim.sample(|| format!("{} channel, script {:?}, back-to-back calls={double}, connect_timeout={connect_timeout:?}", if lazy { "lazy" } else { "eager" }, script));
     sim.ev(|| format!("config: {} channel, script {:?}, double={double}", if lazy { "lazy" } else { "eager" }, script));
     let out = run_sim(sim, Duration::from_secs(100_000), || async {
         let (net, connector, rx) = net_and_connector(sim, netcfg, vec![]);
@@ -80,7 +83,10 @@ pub fn run_script(sim: &Sim, idx: u64) {
             handler.add_script(i, Script { msgs: vec![b"pong".to_vec()], ..Default::default() });
         }
         let _srv = spawn_server::<std::future::Pending<()>>(&handler, &no_comp(), &ServerOpts::default(), rx, None);
-        let ep = endpoint(&ClientOpts::default());
+        let mut ep = endpoint(&ClientOpts::default());
+        if let Some(t) = connect_timeout {
+            ep = ep.connect_timeout(t);
+        }
         let mut up: Option<usize> = None; // model: connection id when Up
         let mut expected_attempts = 0usize;
         let mut call_id = 0u64;
